@@ -6,7 +6,7 @@ from props._lab import S, Lab, SymEnv, do_op, base_tree
 PROP = "C11"
 LEVEL = "other"
 SELFTEST_PARTS = ("num",)
-WALL_BUDGET = {"quick": 1200, "thorough": 9000}
+WALL_BUDGET = {"quick": 3600, "thorough": 14400}
 OIDS = ["o1", "o2", "o3"]
 PATHS = [None, "/a", "/b", "/a/c"]
 
